@@ -79,8 +79,17 @@ func newSide(b0 *block.Block, trunk []*block.Block, a int) *side {
 }
 
 func (s *side) add(b *block.Block) {
-	must(s.repo.AddBlock(b, nil, 0, true))
+	conflicts, err := s.repo.ScanConflicts(b.Header().Number())
+	must(err)
+	must(s.repo.AddBlock(b, nil, conflicts, true))
 	s.head = b
+}
+
+// addSide stores b without making it part of the best chain (a side branch the node has seen).
+func (s *side) addSide(b *block.Block) {
+	conflicts, err := s.repo.ScanConflicts(b.Header().Number())
+	must(err)
+	must(s.repo.AddBlock(b, nil, conflicts, false))
 }
 
 // growTo extends the side with branch blocks (indexed by height) until its head has number n.
@@ -141,6 +150,11 @@ func main() {
 			lb[n], rb[n] = lp, rp
 		}
 		local := newSide(b0, trunk, a)
+		// a second local node that has, besides its own best chain, the first two blocks of the REMOTE branch stored as a
+		// side branch: the search is over best chains, a block that is merely known must not count as common
+		localSide := newSide(b0, trunk, a)
+		localSide.addSide(rb[a+1])
+		localSide.addSide(rb[a+2])
 		remotes := map[string]*side{"A": newSide(b0, trunk, a), "A+1": newSide(b0, trunk, a), "H": newSide(b0, trunk, a), "H+3": newSide(b0, trunk, a)}
 		for _, r := range remotes {
 			r.comm = comm.New(r.repo, nil)
@@ -149,6 +163,7 @@ func main() {
 
 		for h := a; h <= *maxH; h++ {
 			local.growTo(lb, h)
+			localSide.growTo(lb, h)
 			remotes["H"].growTo(rb, h)
 			remotes["H+3"].growTo(rb, h+3)
 			seen := map[int]bool{}
@@ -161,6 +176,10 @@ func main() {
 				seen[rlen] = true
 				nodeSeq++
 				runInstance(w, st, seqs, local, r, h, a, rlen, name, nodeSeq)
+				if h > a && rlen > a { // both have left the trunk: the stored side blocks are the remote's
+					nodeSeq++
+					runInstance(w, st, seqs, localSide, r, h, a, rlen, name+"/side", nodeSeq)
+				}
 			}
 		}
 	}
@@ -225,11 +244,50 @@ func attempt(local, remote *side, h, a int, seq byte, try byte) (anc uint32, err
 		served <- rerr
 	}()
 
-	ctx, cancel := context.WithTimeout(context.Background(), 20*time.Second)
-	func() {
-		defer func() { panicked = recover() }()
-		anc, err = comm.VerifFindCommonAncestor(ctx, local.repo, le, uint32(h))
+	// no deadline of the harness inside the call (Communicator.Sync has none either). Hang rule: hangPolls consecutive polls
+	// (>= 15 s of them) without a single new probe while the call has not returned; the absolute cap is harness trouble.
+	ctx, cancel := context.WithCancel(context.Background())
+	type out struct {
+		anc uint32
+		err error
+		pan any
+	}
+	done := make(chan out, 1)
+	go func() {
+		var o out
+		func() {
+			defer func() { o.pan = recover() }()
+			o.anc, o.err = comm.VerifFindCommonAncestor(ctx, local.repo, le, uint32(h))
+		}()
+		done <- o
 	}()
+	const hangPolls = 300
+	idle, lastProbes := 0, -1
+	capAt := time.Now().Add(240 * time.Second)
+wait:
+	for {
+		select {
+		case o := <-done:
+			anc, err, panicked = o.anc, o.err, o.pan
+			break wait
+		case <-time.After(50 * time.Millisecond):
+		}
+		mu.Lock()
+		np := len(probes)
+		mu.Unlock()
+		if np != lastProbes {
+			lastProbes, idle = np, 0
+		} else {
+			idle++
+		}
+		if idle >= hangPolls {
+			err = fmt.Errorf("findCommonAncestor did not return: no probe for %d polls after %d probes", hangPolls, np)
+			break wait
+		}
+		if time.Now().After(capAt) {
+			fail("ancestor instance H=%d A=%d neither finished nor came to rest within the absolute cap", h, a)
+		}
+	}
 	cancel()
 	closedByUs.Store(true)
 	le.Close()
